@@ -365,7 +365,19 @@ def run_case(case, ctx):
     except Exception as ex:  # noqa: BLE001 - a tomlkit limitation, not aw-core's
         ctx.count("tomlkit_rejects_valid_toml")
         return [], dict(sig=("tomlkit-reject",), nontrivial=False)
-    cdir = dirs.get_config_dir(app)
+    moved_home = None
+    if (len(dtext) + len(utext or "")) % 3 == 0:
+        # the user's configuration home moves (another profile, a sandbox, a test of the caller's): the file that counts
+        # is the one under the directory the environment names NOW, wherever earlier loads of this process looked
+        home = os.path.join(ctx.tmp, f"cfg home {os.getpid()}-{_n[0]} [p]")
+        os.makedirs(home)
+        moved_home = home
+        os.environ["XDG_CONFIG_HOME"] = home
+        cdir = os.path.join(home, "activitywatch", app)
+        os.makedirs(cdir)
+        ctx.count("loads_after_the_config_home_moved")
+    else:
+        cdir = dirs.get_config_dir(app)
     path = os.path.join(cdir, f"{app}.toml")
     try:
         if utext is not None:
@@ -430,4 +442,6 @@ def run_case(case, ctx):
             nontriv = _depth(D) >= 2
     finally:
         shutil.rmtree(cdir, ignore_errors=True)
+        if moved_home:
+            shutil.rmtree(moved_home, ignore_errors=True)
     return viols, dict(sig=sig, nontrivial=nontriv)
